@@ -192,11 +192,17 @@ func genB(t *rapid.T) Case {
 		"restart-family", "restart-family", "restart-family", "restart-family",
 		"inactive-connect", "inactive-connect", "connectforeign"}
 	c.Cfg = genCfg(t, "")
+	plan := drawPlan(t) // fault-injection dimension (fault_test.go): nil in three histories of four
 	m := newModel(c)
 	scratch := summary{classes: map[string]int{}}
-	emit := func(op Op) {
+	var emit func(op Op)
+	emit = func(op Op) {
+		here := plan.consider(t, m, &c, op)
 		c.Ops = append(c.Ops, op)
 		m.step(op, &scratch)
+		if here && plan.restart {
+			emit(Op{K: "reopen"})
+		}
 	}
 	// one history in three starts by building a hub: agent 0 links 2..n-1 others (and, at n=3, the
 	// extra agent), so that agents with 3 and more links die / are re-parented often enough
@@ -212,15 +218,15 @@ func genB(t *rapid.T) Case {
 			emit(Op{K: rapid.SampledFrom([]string{"exit", "killdate", "markdead"}).Draw(t, "hub-death"), A: 0})
 		}
 	}
-	for i := 0; i < nops; i++ {
+	one := func() {
 		op := Op{K: rapid.SampledFrom(kinds).Draw(t, "kind"), A: rapid.IntRange(0, n-1).Draw(t, "actor")}
 		switch op.K {
 		case "restart-family":
 			restartFamily(t, m, n, emit)
-			continue
+			return
 		case "inactive-connect":
 			inactiveConnect(t, m, n, emit, freshIn(m, n))
-			continue
+			return
 		case "connectforeign":
 			op.B = rapid.IntRange(-1, n-1).Draw(t, "child")
 		case "connect":
@@ -233,7 +239,28 @@ func genB(t *rapid.T) Case {
 		}
 		emit(op)
 	}
+	for i := 0; i < nops; i++ {
+		one()
+	}
+	if plan != nil && !plan.placed { // no event of the fault's kind was drawn: one is built, and the history goes on
+		plan.aim(t, m, n, emit)
+		faultTail(t, one, emit)
+	}
 	return c
+}
+
+// faultTail: the events after a faulted event that was appended to a history: 0-3 events, in half
+// of the cases a restart, 0-2 more events.
+func faultTail(t *rapid.T, one func(), emit func(Op)) {
+	for k := rapid.IntRange(0, 3).Draw(t, "fault-tail"); k > 0; k-- {
+		one()
+	}
+	if rapid.Bool().Draw(t, "fault-tail-restart") {
+		emit(Op{K: "reopen"})
+		for k := rapid.IntRange(0, 2).Draw(t, "fault-tail-after-restart"); k > 0; k-- {
+			one()
+		}
+	}
 }
 
 // ---------------------------------------------------------------- (b) aimed events around restarts
@@ -466,16 +493,23 @@ func genLarge(t *rapid.T) Case {
 	c.DB = rapid.SampledFrom([]string{"fresh", "existed", "golden"}).Draw(t, "db")
 	c.Cfg = genCfg(t, "")
 
+	plan := drawPlan(t) // fault-injection dimension: on one of the events after the shape
 	g := newLgen(t, &c, n)
 	for _, op := range shape {
 		g.emit(op)
 	}
+	g.plan = plan
 	if rapid.IntRange(0, 3).Draw(t, "restart-after-shape") == 0 {
 		g.emit(Op{K: "reopen"})
 	}
 	nops := rapid.IntRange(1, 25).Draw(t, "nops")
+	one := func() { g.aimed(rapid.SampledFrom(largeKinds).Draw(t, "biased")) }
 	for i := 0; i < nops; i++ {
-		g.aimed(rapid.SampledFrom(largeKinds).Draw(t, "biased"))
+		one()
+	}
+	if plan != nil && !plan.placed {
+		plan.aim(t, g.m, n, g.emit)
+		faultTail(t, one, g.emit)
 	}
 	return c
 }
@@ -495,6 +529,7 @@ type lgen struct {
 	cuts    []int
 	scratch summary
 	scale   bool // scale histories: distances of aimed cyclic connects come from the threshold-adjacent pool
+	plan    *planner // fault-injection dimension of (b); nil = none
 }
 
 func newLgen(t *rapid.T, c *Case, n int) *lgen {
@@ -502,8 +537,12 @@ func newLgen(t *rapid.T, c *Case, n int) *lgen {
 }
 
 func (g *lgen) emit(op Op) {
+	here := g.plan.consider(g.t, g.m, g.c, op)
 	g.c.Ops = append(g.c.Ops, op)
 	g.m.step(op, &g.scratch)
+	if here && g.plan.restart {
+		g.emit(Op{K: "reopen"})
+	}
 }
 
 func (g *lgen) pick(label string, from []int) int { return pickFrom(g.t, label, from) }
